@@ -86,9 +86,11 @@ Fixpoint l_struct_ok (h : heap) (g : graph) (x : oid) {struct g} : bool :=
       else node_opt n
   end.
 
-(* does the walk touch at least one notifier list? *)
+(* does the walk certainly touch a notifier list?  A named root node that applies always does (its user
+   notifier, else a maintainer, else the trait_added maintainer); an item node without notify and
+   without children hooks nothing, so its removal can never fail. *)
 Definition l_touches (h : heap) (gs : list graph) (x : oid) : bool :=
-  existsb (fun g => match g with G n _ => applies h n x end) gs.
+  existsb (fun g => match g with G (NNamed f _ _) _ => has_trait h x f | _ => false end) gs.
 
 (* ---------- the ledger of successful registrations ---------- *)
 Definition sig := (oid * nat * nat * list graph)%type.
@@ -193,3 +195,21 @@ Section Law.
         map (fun c => 100 * i + c) codes ++ law_hist (S i) L' dh' dobj' cur r
     end.
 End Law.
+
+(* ---------- histories with heap mutations in between (dynamic cases of the correspondence) ----------
+   The law has nothing to say about the mutation step itself (that is property C08); it continues with
+   the heap as it is after the mutation: "matched" in clause 3 and "can fail" in clause 4 are always
+   evaluated on the current heap.  On a history without mutations this is [law_hist]
+   (LawProofs.law_hist_dyn_static). *)
+Inductive lstep := LStatic (o : op) | LMut (h' : heap).
+
+Fixpoint law_hist_dyn (univ : list obsv) (init : snap) (i : nat) (h : heap) (L : ledger) (dh : list nat)
+         (dobj : list oid) (prev : snap) (hist : list (lstep * iobs)) : list nat :=
+  match hist with
+  | [] => []
+  | (LStatic o, ob) :: r =>
+      let cur := i_snap ob ++ prev in
+      let '(codes, L', dh', dobj') := law_step h univ init L dh dobj prev cur o ob in
+      map (fun c => 100 * i + c) codes ++ law_hist_dyn univ init (S i) h L' dh' dobj' cur r
+  | (LMut h', ob) :: r => law_hist_dyn univ init (S i) h' L dh dobj (i_snap ob ++ prev) r
+  end.
